@@ -1,5 +1,5 @@
 CONSTANTS
-  MaxTasks = 6
+  MaxTasks = 8
   MaxWorkers = 3
   MaxSenders = 3
   NWChoices = {1}
